@@ -24,6 +24,7 @@ real SSA dump, must reproduce the dump's phi statements, reads and phi arguments
 -/
 import Circomspect.Lemmas.SsaLemmas
 import Circomspect.Lemmas.SsaBuildLemmas
+import Circomspect.Lemmas.SsaWalkLemmas
 
 namespace Circomspect.C14
 open Circomspect Ssa SsaLemmas
@@ -127,6 +128,102 @@ theorem C14_worklist_terminates (c : SsaBuild.PCfg) (df : Nat → List Nat) (hdf
       simp at hv
       obtain ⟨a, ha, _⟩ := hv
       cases ha
+
+-- ---------------------------------------------------------------------------- the operational walk (`Model/SsaWalk.lean`)
+
+/-- **the conversion as the code runs it** — pre-order walk over the dominator tree, global version counters, the scoped
+    map handed down to the children, phi arguments pushed at the end of every block — yields an SSA form that meets the
+    certificate conditions (hence the path properties), for every rooted CFG with consistent edge lists and distinct
+    parameters and every placement the work list computes -/
+theorem C14_walk (c : SsaBuild.PCfg) (idom : Nat → Nat) (df : Nat → List Nat) (vars : List Var)
+    (hroot : Graph.Rooted (SsaBuild.graphP c))
+    (hidom : ∀ i, 0 < i → i < c.blocks.length → Graph.IDom (SsaBuild.graphP c) (idom i) i)
+    (hlt : ∀ i, 0 < i → i < c.blocks.length → idom i < i)
+    (hdf : ∀ x j, j ∈ df x ↔ Graph.InFrontier (SsaBuild.graphP c) x j)
+    (hvars : SsaBuild.VarsOk c vars) (hpar : c.params.Nodup) (hedges : SsaWalk.EdgesOk c)
+    (fuel : Nat) (Pf : SsaBuild.Phis)
+    (hP : SsaBuild.insertPhis df (SsaBuild.written c) fuel (List.range c.blocks.length) (fun _ => []) = some Pf)
+    (st : SsaWalk.St) (hrun : SsaWalk.run c Pf idom = .ok st) (c' : Cfg) (hc : SsaWalk.cfgOf c Pf st = some c') :
+    Checked c' vars (SsaBuild.insOf (SsaWalk.toV st.log) c Pf idom) := by
+  have hrows : ∀ i, (Pf i).Nodup := by
+    have hdfr : ∀ x j, j ∈ df x → j < c.blocks.length := fun x j hj => ((hdf x j).mp hj).1
+    have hwr : ∀ x v, v ∈ SsaBuild.written c x → v ∈ allWritten c := by
+      intro x v hv
+      unfold allWritten
+      rw [List.mem_eraseDups, List.mem_flatMap]
+      by_cases hx : x < c.blocks.length
+      · exact ⟨x, List.mem_range.mpr hx, hv⟩
+      · exfalso
+        unfold SsaBuild.written SsaBuild.PCfg.block at hv
+        rw [List.getD_eq_getElem?_getD, List.getElem?_eq_none (by omega)] at hv
+        simp at hv
+        obtain ⟨a, ha, _⟩ := hv
+        cases ha
+    exact (SsaWalk.insertPhis_rows c.blocks.length (allWritten c) df (SsaBuild.written c) hdfr hwr fuel _ _ Pf
+      ⟨fun _ _ => rfl, fun _ => List.nodup_nil, fun j v h => (List.not_mem_nil h).elim⟩ hP).nodup
+  obtain ⟨c'', hb, hsim⟩ := SsaWalk.run_build c Pf idom hrows hlt hpar hedges st hrun c' hc
+  have hn : 0 < c''.blocks.length := by
+    rw [(SsaBuild.build_spec _ c Pf idom c'' hb).2.1]; exact hroot.pos
+  exact SsaWalk.checked_sim c' c'' vars _ hsim
+    (checked_of_check c'' vars _ hn (C14_construction _ c idom df vars hroot hidom hlt hdf hvars fuel Pf hP c'' hb))
+
+/-- ... so along every path from the entry every read of every non-phi statement of the walk's output names the version
+    most recently assigned on that path -/
+theorem C14_walk_paths (c : SsaBuild.PCfg) (idom : Nat → Nat) (df : Nat → List Nat) (vars : List Var)
+    (hroot : Graph.Rooted (SsaBuild.graphP c))
+    (hidom : ∀ i, 0 < i → i < c.blocks.length → Graph.IDom (SsaBuild.graphP c) (idom i) i)
+    (hlt : ∀ i, 0 < i → i < c.blocks.length → idom i < i)
+    (hdf : ∀ x j, j ∈ df x ↔ Graph.InFrontier (SsaBuild.graphP c) x j)
+    (hvars : SsaBuild.VarsOk c vars) (hpar : c.params.Nodup) (hedges : SsaWalk.EdgesOk c)
+    (fuel : Nat) (Pf : SsaBuild.Phis)
+    (hP : SsaBuild.insertPhis df (SsaBuild.written c) fuel (List.range c.blocks.length) (fun _ => []) = some Pf)
+    (st : SsaWalk.St) (hrun : SsaWalk.run c Pf idom = .ok st) (c' : Cfg) (hc : SsaWalk.cfgOf c Pf st = some c')
+    (b : Nat) (π : List Nat) (hπ : SPath c' b π)
+    (pre : List Stmt) (s : Stmt) (post : List Stmt) (hsplit : (c'.block b).stmts = pre ++ s :: post)
+    (hphi : s.isPhi = false) (r : VVar) (hr : r ∈ s.reads) :
+    preStmt (execStmts (dynOut c' π.tail) pre) s r.1 = some r.2 :=
+  readsOk_pointwise _ _ (path_sound c' vars _
+    (C14_walk c idom df vars hroot hidom hlt hdf hvars hpar hedges fuel Pf hP st hrun c' hc) b π hπ).2 pre s post hsplit hphi r hr
+
+/-- **clause (a): every versioned local has at most one defining statement** — the counters never hand out a version
+    of a variable twice (`SsaWalk.run_fresh`, no assumption at all) and every definition site is numbered exactly once
+    (`SsaWalk.walk_sites`: the walk is over a tree); no statement re-defines version 0 of a parameter -/
+theorem C14_walk_unique_defs (c : SsaBuild.PCfg) (P : SsaBuild.Phis) (idom : Nat → Nat) (hP : ∀ i, (P i).Nodup)
+    (hlt : ∀ j, 0 < j → j < c.blocks.length → idom j < j) (hpar : c.params.Nodup)
+    (st : SsaWalk.St) (hrun : SsaWalk.run c P idom = .ok st) (c' : Cfg) (hc : SsaWalk.cfgOf c P st = some c') :
+    (∀ (i k : Nat) (s : Stmt) (i' k' : Nat) (s' : Stmt) (t : VVar), i < c.blocks.length → i' < c.blocks.length →
+      (c'.block i).stmts[k]? = some s → s.target = some t → (c'.block i').stmts[k']? = some s' → s'.target = some t →
+      i = i' ∧ k = k') ∧
+    (∀ (i k : Nat) (s : Stmt) (p : Var), i < c.blocks.length → (c'.block i).stmts[k]? = some s → s.target = some (p, 0) → p ∉ c.params) :=
+  SsaWalk.run_unique c P idom hP hlt hpar st hrun c' hc
+
+/-- the counters alone: whatever the CFG, the tree and the placement, no `(variable, version)` is handed out twice -/
+theorem C14_counters_fresh (c : SsaBuild.PCfg) (P : SsaBuild.Phis) (idom : Nat → Nat) (st : SsaWalk.St)
+    (h : SsaWalk.run c P idom = .ok st) : (SsaWalk.pairs st.log).Nodup := SsaWalk.run_fresh c P idom st h
+
+/-- the recursion over the dominator tree never exceeds the depth budget (also a C01 fact) -/
+theorem C14_walk_depth (c : SsaBuild.PCfg) (P : SsaBuild.Phis) (idom : Nat → Nat)
+    (hlt : ∀ j, 0 < j → j < c.blocks.length → idom j < j) : SsaWalk.run c P idom ≠ .fuel :=
+  SsaWalk.run_nofuel c P idom hlt
+
+/-- non-vacuity of the walk theorems: `x = 1; while (..) { x = x + 1 }; use x` — the walk converts it, numbering the
+    definitions 0 (entry), 1 (phi), 2 (loop body) -/
+def exP : SsaBuild.PCfg :=
+  { params := [],
+    blocks := [
+      { stmts := [{ target := some "x", reads := [], upd := false }], preds := [], succs := [1] },
+      { stmts := [{ target := none, reads := ["x"], upd := false }], preds := [0, 2], succs := [2, 3] },
+      { stmts := [{ target := some "x", reads := ["x"], upd := false }], preds := [1], succs := [1] },
+      { stmts := [{ target := none, reads := ["x"], upd := false }], preds := [1], succs := [] }] }
+def exPhis : SsaBuild.Phis := fun j => if j = 1 then ["x"] else []
+def exIdom : Nat → Nat := fun j => if j = 1 then 0 else 1
+def exOut : Option (List (List (Bool × Option VVar × List VVar))) :=
+  match SsaWalk.run exP exPhis exIdom with
+  | .ok st => (SsaWalk.cfgOf exP exPhis st).map (fun c => c.blocks.map (fun b => b.stmts.map (fun s => (s.isPhi, s.target, s.reads))))
+  | _ => none
+example : exOut =
+    some [[(false, some ("x", 0), [])], [(true, some ("x", 1), [("x", 0), ("x", 2)]), (false, none, [("x", 1)])],
+          [(false, some ("x", 2), [("x", 1)])], [(false, none, [("x", 1)])]] := by rfl
 
 /-- non-vacuity: `x = 1; while (..) { x = x + 1 }; use x` in SSA form passes the check -/
 def exCfg : Cfg :=
